@@ -110,12 +110,25 @@ def build_lean(targets):
     return rc == 0, (out + err)[-6000:]
 
 def theorem_names(prop_file):
-    """names of the theorems declared in a Props file (namespace Unimock)"""
+    """fully qualified names (without the leading `Unimock.`) of the theorems declared in a Props file"""
     src = open(prop_file).read()
     # drop block comments and line comments
     src_nc = re.sub(r'/-.*?-/', '', src, flags=re.S)
     src_nc = re.sub(r'--.*', '', src_nc)
-    return re.findall(r"^theorem\s+([A-Za-z0-9_\.?'!]+)", src_nc, flags=re.M), src_nc
+    names = []
+    stack = []
+    for line in src_nc.split('\n'):
+        m = re.match(r'^namespace\s+(\S+)', line)
+        if m:
+            stack.append(m.group(1)); continue
+        m = re.match(r'^end\s+(\S+)', line)
+        if m and stack and stack[-1] == m.group(1):
+            stack.pop(); continue
+        m = re.match(r"^theorem\s+([A-Za-z0-9_\.?!']+)", line)
+        if m:
+            full = '.'.join(stack + [m.group(1)])
+            names.append(full[len('Unimock.'):] if full.startswith('Unimock.') else full)
+    return names, src_nc
 
 def lean_sources_for(module_file):
     """all project files transitively imported by module_file"""
@@ -139,7 +152,7 @@ def lean_obligations(prop, expected, report, thorough=False):
     problems = []
     if not ok:
         problems.append(f"lake build {module} failed:\n{log[-3000:]}")
-    missing = [t for t in expected if t not in names]
+    missing = [t for t in expected if not any(n == t or n.endswith('.' + t) for n in names)]
     if missing:
         problems.append(f"expected theorems missing from Props/{prop}.lean: {missing}")
     # forbidden constructs in all sources the module depends on
